@@ -18,7 +18,8 @@ from .C03 import coherent_pre
 
 FUNCTIONS = ["Tr/ScanTr/CondTr pytree flatten/unflatten", "Update/Regenerate handlers", "mh/mala", "resample_vectorized_trace", "Trace.get_*"]
 BOUNDS = {"histories": "arbitrary length by induction over (update, regenerate, mh, mala, hmc, indexing, resampling, jit round trip); explicit compositions of length 2-3",
-          "programs": "corpus", "pre-state": "arbitrary coherent trace"}
+          "programs": "corpus", "pre-state": "arbitrary coherent trace",
+          "inductive steps re-run here": "update on top_scan/scanned/top_vmap/branching, regenerate on scanned/top_cond, mh and mala, resample (both methods, N=2); the full sets are C03, C04, C09, C12"}
 ASSUMPTIONS = ["inductive steps for update/regenerate/kernels/resampling are the 'result is coherent' obligations of C03, C04, C09, C12 (re-run here on a subset)"]
 EXPLANATION = "inductive invariant 'coherent trace' + explicit short compositions"
 
